@@ -1031,6 +1031,22 @@ func (g *gen) scnC14() M {
 		if nrows > 0 {
 			corrupt = M{"kind": "len", "row": 1 + g.rng.Intn(nrows), "col": 1 + g.rng.Intn(ncols)}
 		}
+	case 3:
+		// a correctly framed value of the wrong size for a fixed-width column
+		for try := 0; try < 10 && nrows > 0; try++ {
+			r, j := g.rng.Intn(nrows), g.rng.Intn(ncols)
+			f := run.AsM(table[r].([]any)[j])
+			hasE := false
+			for _, rv := range table {
+				if run.S(run.AsM(rv.([]any)[j]), "c") == "e" {
+					hasE = true
+				}
+			}
+			if !hasE && run.S(f, "c") == "v" && run.I(f, "n") == 2 {
+				corrupt = M{"kind": "width", "row": r + 1, "col": j + 1, "how": g.pick("short", "long")}
+				break
+			}
+		}
 	}
 	bytecuts := []any{}
 	switch g.rng.Intn(4) {
@@ -1094,12 +1110,22 @@ func (g *gen) behC09() M {
 			steps = append(steps, send(M{"t": "Q", "q": q}))
 			continue
 		}
+		pn := g.pick("", "", "p1")
 		steps = append(steps, send(M{"t": "P", "name": "", "q": q, "noids": 0}),
-			send(M{"t": "B", "portal": "", "stmt": "", "pfmt": []any{}, "params": []any{}, "rfmt": g.codeList(nc)}))
+			send(M{"t": "B", "portal": pn, "stmt": "", "pfmt": []any{}, "params": []any{}, "rfmt": g.codeList(nc)}))
 		if g.chance(0.8) {
-			steps = append(steps, send(M{"t": "D", "kind": "P", "name": ""}))
+			steps = append(steps, send(M{"t": "D", "kind": "P", "name": pn}))
 		}
-		steps = append(steps, send(M{"t": "E", "portal": "", "max": g.maxRows()}), send(M{"t": "S"}))
+		if g.chance(0.4) {
+			// another portal of the same statement with result formats of its own, bound (and perhaps failing
+			// to bind) in between: the first portal keeps the formats of its own Bind
+			other := M{"t": "B", "portal": "p2", "stmt": g.pick("", "", "nosuch"), "pfmt": []any{}, "params": []any{}, "rfmt": g.codeList(nc)}
+			steps = append(steps, send(other))
+			if run.S(other, "stmt") == "nosuch" {
+				steps = append(steps, send(M{"t": "S"}))
+			}
+		}
+		steps = append(steps, send(M{"t": "E", "portal": pn, "max": g.maxRows()}), send(M{"t": "S"}))
 	}
 	cfg := baseCfg()
 	cfg["limit"] = 1 << 20
@@ -1165,6 +1191,16 @@ func (g *gen) behC18() M {
 		}
 	}
 	n := 2 + g.rng.Intn(10)
+	if g.chance(0.3) {
+		// a short session of small messages followed by another connection on the same server: what the
+		// first one's callbacks retained outlives its connection
+		for i := 0; i < 1+g.rng.Intn(3); i++ {
+			q := g.trivialQ()
+			q["pad"] = 20 + g.rng.Intn(200)
+			steps = append(steps, send(M{"t": "Q", "q": q}))
+		}
+		return M{"cfg": cfg, "steps": steps, "probe": true}
+	}
 	for i := 0; i < n; i++ {
 		switch g.rng.Intn(6) {
 		case 0, 1:
